@@ -9,6 +9,10 @@ from concurrent.futures import ThreadPoolExecutor
 from .tlc import SPEC, JAR_CP
 
 
+# spec directories whose modules EXTEND modules of other directories
+DEPENDS = {"system": ["codec"]}
+
+
 def main():
     bad = []
     jobs = []
@@ -24,7 +28,7 @@ def main():
         d, fn = job
         scratch = tempfile.mkdtemp(prefix="vsany_")
         try:
-            for src in (os.path.join(SPEC, "common"), os.path.join(SPEC, d)):
+            for src in [os.path.join(SPEC, "common"), os.path.join(SPEC, d)] + [os.path.join(SPEC, x) for x in DEPENDS.get(d, [])]:
                 for f in os.listdir(src):
                     if f.endswith(".tla"):
                         shutil.copy(os.path.join(src, f), scratch)
